@@ -428,38 +428,119 @@ func descriptor(in Instr, inst Inst, role string) string {
 	return name + ":" + in.Cls + ":" + family(inst.Kind)
 }
 
-// findingKey: a mismatch on a field is attributed to a must-be-ignored instruction bearing on that
-// field when there is one ("misread"), else to the combination of instructions bearing on it.
+// findingKey names a difference from the specification on a field by the instructions bearing on
+// that field.
 func findingKey(field string, b Behaviour, chosen map[int]Inst) (string, []string) {
 	var ds []string
-	culprit, culpritVar, culpritCls := "", -1, ""
 	for _, in := range b.Instrs {
 		for _, fv := range fieldVars[field] {
-			if in.Var != fv {
-				continue
-			}
-			d := descriptor(in, chosen[in.ID], b.Role)
-			ds = append(ds, d)
-			if typeOf(in.Var) != "flag" && ignoredClass(in.Cls) && (culprit == "" || d < culprit) {
-				culprit, culpritVar, culpritCls = d, in.Var, in.Cls
+			if in.Var == fv {
+				ds = append(ds, descriptor(in, chosen[in.ID], b.Role))
 			}
 		}
 	}
 	sort.Strings(ds)
 	ds = uniq(ds)
-	if culprit == "" {
-		return fmt.Sprintf("mismatch|field=%s|%s", field, strings.Join(ds, ",")), ds
+	return fmt.Sprintf("mismatch|field=%s|%s", field, strings.Join(ds, ",")), ds
+}
+
+// fieldOfVar: the result field a variable's value feeds.
+var fieldOfVar = map[int]string{2: "ip", 5: "dns", 3: "port", 4: "port", 12: "scheme", 11: "medium", 13: "delay", 9: "ssid", 10: "pw",
+	15: "ext", 6: "svhash", 7: "clhash"}
+
+func fieldGroup(f string) string {
+	if f == "dns" || f == "ip" || f == "urls" {
+		return "addr"
 	}
-	for _, in := range b.Instrs {
-		if in.Var == culpritVar && (in.Cls == "valid" || in.Cls == "boundary") {
-			c := VarNames[culpritVar] + ":" + culpritCls
-			if strings.HasSuffix(culprit, ":reserved-ai") {
-				c = culprit // a distinct root cause (the decoder reads reserved additional information as 0)
-			}
-			return fmt.Sprintf("misread|%s|field=%s|replaces-effective-value", c, field), ds
+	return f
+}
+
+func obsEqual(a, b Obs) bool {
+	x, _ := json.Marshal(a)
+	y, _ := json.Marshal(b)
+	return string(x) == string(y)
+}
+
+// takesEffectAlone: does the single instruction change the result of a directive that otherwise
+// only names a host?
+func takesEffectAlone(role string, in protocol.RvInstruction) bool {
+	host := protocol.RvInstruction{Variable: protocol.RVDns, Value: cb.Tstr("alone.example").Encode()}
+	if in.Variable == protocol.RVDns {
+		host = protocol.RvInstruction{Variable: protocol.RVIPAddress, Value: cb.Bstr([]byte{192, 0, 2, 9}).Encode()}
+	}
+	base, at1, _ := parse(role, []protocol.RvInstruction{host}, false)
+	with, at2, _ := parse(role, []protocol.RvInstruction{host, in}, false)
+	return at1 == "" && at2 == "" && !obsEqual(base, with)
+}
+
+// misreads applies the specification's MalformedIgnored property to the library directly: an
+// instruction whose value is malformed CBOR, of the wrong type or empty must be ignored, so
+// removing it from the list must not change the result. Each instruction whose removal does change
+// it is reported under its own key; the result fields it feeds are returned.
+func (rn *runner) misreads(b Behaviour, ins []protocol.RvInstruction, chosen map[int]Inst, o Obs, expJSON []byte) map[string]bool {
+	touched := map[string]bool{}
+	var ignored []int
+	var kept []protocol.RvInstruction
+	for i, in := range b.Instrs {
+		if typeOf(in.Var) != "flag" && ignoredClass(in.Cls) {
+			ignored = append(ignored, i)
+		} else {
+			kept = append(kept, ins[i])
 		}
 	}
-	return fmt.Sprintf("misread|%s|field=%s", culprit, field), ds
+	// several such instructions can mask each other (removing one leaves the other's effect): then
+	// compare with the list without all of them
+	group := false
+	if len(ignored) >= 2 {
+		single := false
+		for _, i := range ignored {
+			rest := append(append([]protocol.RvInstruction{}, ins[:i]...), ins[i+1:]...)
+			if w, at, _ := parse(b.Role, rest, false); at == "" && !obsEqual(w, o) {
+				single = true
+			}
+		}
+		group = !single
+	}
+	for _, i := range ignored {
+		in := b.Instrs[i]
+		rest := append(append([]protocol.RvInstruction{}, ins[:i]...), ins[i+1:]...)
+		if group {
+			rest = kept
+		}
+		without, at, _ := parse(b.Role, rest, false)
+		rn.rep.Evaluations++
+		if at != "" || obsEqual(without, o) {
+			continue
+		}
+		if group && !takesEffectAlone(b.Role, ins[i]) {
+			same := false
+			for _, k := range b.Instrs {
+				same = same || (k.Var == in.Var && (k.Cls == "valid" || k.Cls == "boundary"))
+			}
+			if !same {
+				continue
+			}
+		}
+		field := fieldOfVar[in.Var]
+		touched[fieldGroup(field)] = true
+		if in.Var == 3 || in.Var == 4 || in.Var == 12 {
+			touched["port"], touched["scheme"] = true, true
+		}
+		d := descriptor(in, chosen[in.ID], b.Role)
+		key := fmt.Sprintf("misread|%s|field=%s", d, field)
+		if !takesEffectAlone(b.Role, ins[i]) {
+			// it only has an effect next to another value of the same variable
+			c := VarNames[in.Var] + ":" + in.Cls
+			if strings.HasSuffix(d, ":reserved-ai") {
+				c = d // a distinct root cause (the decoder reads reserved additional information as 0)
+			}
+			key = fmt.Sprintf("misread|%s|field=%s|replaces-effective-value", c, field)
+		}
+		oc, wc := o, without
+		rn.record(key, &Finding{Kind: "mismatch", Field: field, Len: len(ins), Role: b.Role, Instrs: concrete(b, chosen), Descs: []string{d}, Expected: expJSON, Observed: &oc, Without: &wc,
+			What: fmt.Sprintf("%s value of class %s (%s) is not ignored: the result differs from the result of the same list without it", VarNames[in.Var], in.Cls, chosen[in.ID].Kind)})
+	}
+	return touched
 }
 
 // Finding is one reported deviation (grouped by key).
@@ -475,6 +556,7 @@ type Finding struct {
 	Instrs   []ConcreteInstr `json:"instrs"`
 	Expected json.RawMessage `json:"expected,omitempty"`
 	Observed *Obs            `json:"observed,omitempty"`
+	Without  *Obs            `json:"observed_without_the_instruction,omitempty"`
 }
 
 // ConcreteInstr is what was handed to the library.
@@ -586,6 +668,12 @@ func (rn *runner) one(b Behaviour, pick func(opts []Inst) Inst) error {
 		}
 		ms := compare(exp, o, chosen)
 		rn.rep.Judged++
+		touched := map[string]bool{}
+		if !nb {
+			touched = rn.misreads(b, ins, chosen, o, expJSON)
+		} else if len(ms) > 0 {
+			continue // already judged without neighbours; with neighbours only new kinds of difference matter
+		}
 		addr := false
 		for _, m := range ms {
 			addr = addr || m.Field == "dns" || m.Field == "ip"
@@ -593,6 +681,9 @@ func (rn *runner) one(b Behaviour, pick func(opts []Inst) Inst) error {
 		for _, m := range ms {
 			if m.Field == "urls" && addr {
 				continue // the count difference is the dns/ip difference
+			}
+			if touched[fieldGroup(m.Field)] {
+				continue // explained by an instruction that should have been ignored (reported above)
 			}
 			key, ds := findingKey(m.Field, b, chosen)
 			oc := o
